@@ -33,8 +33,9 @@ def main(argv=None):
         ctx = Ctx(repo, rep, args.tier)
         ctx.args = args
         mod.run(ctx)
-        if args.tier == "thorough" and not args.no_selftest and hasattr(mod, "selftest"):
-            mod.selftest(ctx)
+        if args.tier == "thorough" and not args.no_selftest:
+            from . import selftest
+            selftest.run(pid, rep, args.repo)
     except AnalysisError as e:
         print(f"ANALYSIS-ERROR property={pid} {e}")
         return 2
